@@ -71,6 +71,8 @@ class Scenario:
     midpull_close: tuple = ()  # (call_no, j): the consumer closes the generator while a callback delivered at a consumer
     #                            pause is inside its j-th pull from the input iterable
     verbose: int = 0           # Parallel(verbose=...): progress printing must not change behaviour (output is discarded)
+    sized: bool = False        # the input of every call is an object with __len__ (and a lazy __iter__), not a bare generator:
+    #                            whether the input has a length must not change what is pulled when (in the model: no field)
     probe_wait: bool = False   # evaluate Parallel._wait_retrieval() at every bytecode of completion callbacks delivered
     #                            while the caller sleeps in the retrieval loop (what the caller would see if it ran there)
 
@@ -97,7 +99,8 @@ class Scenario:
                     abort_drops=self.abort_drops,
                     calls=[dict(n=c.n, fail=list(c.fail), iterfail=c.iterfail, cons=list(c.cons)) for c in self.calls],
                     sched=[list(e) for e in self.sched], instr=[list(e) for e in self.instr],
-                    midpull_close=list(self.midpull_close), probe_wait=self.probe_wait, verbose=self.verbose)
+                    midpull_close=list(self.midpull_close), probe_wait=self.probe_wait, verbose=self.verbose,
+                    sized=self.sized)
 
     @staticmethod
     def from_json(d):
@@ -106,7 +109,21 @@ class Scenario:
                         abort_drops=d["abort_drops"],
                         calls=tuple(Call(c["n"], tuple(c["fail"]), c["iterfail"], tuple(c["cons"])) for c in d["calls"]),
                         sched=tuple(tuple(e) for e in d["sched"]), instr=tuple(tuple(e) for e in d.get("instr", ())),
-                        midpull_close=tuple(d.get("midpull_close", ())), probe_wait=bool(d.get("probe_wait", False)), verbose=int(d.get("verbose", 0)))
+                        midpull_close=tuple(d.get("midpull_close", ())), probe_wait=bool(d.get("probe_wait", False)), verbose=int(d.get("verbose", 0)),
+                        sized=bool(d.get("sized", False)))
+
+
+class _Sized:
+    """An input with a length whose items are still produced lazily (a dataset-like object)."""
+
+    def __init__(self, gen, n):
+        self._gen, self._n = gen, n
+
+    def __len__(self):
+        return self._n
+
+    def __iter__(self):
+        return self._gen
 
 
 # ---------------------------------------------------------------- the run
@@ -425,7 +442,7 @@ class Run:
     def run_call(self, par, cno, base, call, src):
         sc = self.sc
         try:
-            out = par(src(cno, base, call))
+            out = par(_Sized(src(cno, base, call), call.n) if sc.sized else src(cno, base, call))
         except HangDetected:
             raise
         except BaseException as e:  # noqa: BLE001
